@@ -1078,7 +1078,7 @@ class Flow:
                     """Every free variable of e means the same at the definition and at the use site, and no object e
                     reads is written in place (element / attribute store, mutating method, passed to a call made for its
                     effect) on a path in between."""
-                    fvs = names_loaded(e)
+                    fvs = free_names(e)          # names bound by the expression's own lambdas / comprehensions are not free
                     for fv in fvs:
                         if flow.rd_in[d.node].get(fv, set()) != flow.rd_in[at_nid].get(fv, set()):
                             return False
@@ -1282,6 +1282,10 @@ def canon(expr, params=(), rename=None, consts=None):
                     return ('call', ('fn', 'np.' + e.func.attr), tuple(args), kws)
             if fn in ('dict', 'list', 'tuple') and not e.args and not e.keywords:
                 return (fn,)
+            if fn == 'list' and len(e.args) == 1 and not e.keywords and isinstance(e.args[0], ast.Call) and dotted(e.args[0].func) == 'reversed' \
+                    and len(e.args[0].args) == 1:
+                # list(reversed(x)) is x[::-1] for the lists it is used on
+                return ('sub', c(e.args[0].args[0]), ('slice', None, None, ('const', '-1')))
             if isinstance(e.func, ast.Attribute) and e.func.attr == 'group' and len(e.args) == 1 and not e.keywords \
                     and isinstance(e.args[0], ast.Constant) and isinstance(e.args[0].value, int) and e.args[0].value >= 1:
                 # match.group(k) is match.groups()[k - 1]
@@ -1313,6 +1317,9 @@ def canon(expr, params=(), rename=None, consts=None):
                 return ('const', 'None')
             return ('attr', c(e.value), e.attr)
         if isinstance(e, ast.Subscript):
+            # the first extent of an array is its length
+            if isinstance(e.value, ast.Attribute) and e.value.attr == 'shape' and isinstance(e.slice, ast.Constant) and e.slice.value == 0:
+                return ('call', ('fn', 'len'), (c(e.value.value),), ())
             return ('sub', c(e.value), c(e.slice))
         if isinstance(e, ast.Slice):
             return ('slice', c(e.lower) if e.lower else None, c(e.upper) if e.upper else None,
@@ -1340,6 +1347,11 @@ def canon(expr, params=(), rename=None, consts=None):
             return (type(e.op).__name__.lower(),) + tuple(sorted((c(v) for v in e.values), key=repr))
         if isinstance(e, ast.IfExp):
             t = e.test
+            # `d[k] if k in d else x` is `d.get(k, x)`
+            if isinstance(t, ast.Compare) and len(t.ops) == 1 and isinstance(t.ops[0], (ast.In, ast.NotIn)):
+                hit, miss = (e.body, e.orelse) if isinstance(t.ops[0], ast.In) else (e.orelse, e.body)
+                if isinstance(hit, ast.Subscript) and ast.dump(hit.value) == ast.dump(t.comparators[0]) and ast.dump(hit.slice) == ast.dump(t.left):
+                    return c(ast.Call(func=ast.Attribute(value=hit.value, attr='get', ctx=ast.Load()), args=[t.left, miss], keywords=[]))
             # `a if not c else b` is `b if c else a` (same orientation rule as for statements)
             if isinstance(t, ast.UnaryOp) and isinstance(t.op, ast.Not):
                 return c(ast.IfExp(test=t.operand, body=e.orelse, orelse=e.body))
@@ -1348,8 +1360,15 @@ def canon(expr, params=(), rename=None, consts=None):
             return ('ifexp', c(e.test), c(e.body), c(e.orelse))
         if isinstance(e, ast.Starred):
             return ('star', c(e.value))
+        def it(x):
+            # walking a copy of a sequence is walking the sequence (nothing in a comprehension can change it meanwhile)
+            if isinstance(x, ast.Call) and isinstance(x.func, ast.Attribute) and x.func.attr == 'copy' and not x.args and not x.keywords:
+                return c(x.func.value)
+            if isinstance(x, ast.Call) and isinstance(x.func, ast.Name) and x.func.id == 'list' and len(x.args) == 1 and not x.keywords:
+                return c(x.args[0])
+            return c(x)
         if isinstance(e, (ast.ListComp, ast.SetComp, ast.GeneratorExp)):
-            gens = tuple(('gen', c(g.target), c(g.iter), tuple(c(i) for i in g.ifs)) for g in e.generators)
+            gens = tuple(('gen', c(g.target), it(g.iter), tuple(c(i) for i in g.ifs)) for g in e.generators)
             return ('comp', 'set' if isinstance(e, ast.SetComp) else 'seq', c(e.elt)) + gens
         if isinstance(e, ast.DictComp):
             gens = tuple(('gen', c(g.target), c(g.iter), tuple(c(i) for i in g.ifs)) for g in e.generators)
